@@ -394,6 +394,8 @@ def bfs(tier, blocking=False, shared_only=False, strict=False):
         for snap, ref, path in frontier:
             states += 1
             for c in calls:
+                if c["tag"].startswith(("body-", "noparams-")) and len(path) > 2:
+                    continue      # refused before the stores are looked at: issued in every state up to depth 2 only
                 sut.restore(snap)
                 before = sut.full_dump()
                 r2 = ref.clone()
